@@ -12,7 +12,7 @@ VARIABLE l
 ReadyOK(e) ==
   /\ e.res \in Allowed(e.resp)
   /\ (e.res = "err") = (~e.lib_success)
-  /\ (e.res = "err" => e.err_disc = (IF e.resp.code \in DOMAIN StatusReg THEN e.resp.code ELSE 65535))
+  /\ (e.res = "err" => (e.err_disc = e.resp.code \/ (e.resp.code \notin DOMAIN StatusReg /\ e.err_disc = 65535)))
 Step(e) == e.ev = "ready" /\ ReadyOK(e)
 Init == l = 1
 Next == l <= Len(Rec) /\ Step(Rec[l]) /\ l' = l + 1
